@@ -232,7 +232,7 @@ impl Prop for C19 {
          for 16 games covering every protocol family x 2 output modes x 6 formats. Oracle: exit status 0 and exactly one document on stdout that a strict parser in the harness \
          accepts (serde_json; an XML 1.1 well-formedness checker incl. the Name production and restricted characters; the bson crate after hex / base64 decoding; debug: non-empty) \
          and that carries the values the library returns for the same server queried in-process (JSON / BSON: structural equality, floats within 1e-6; XML: the tree the CLI's \
-         documented JSON->XML mapping gives, children compared as multisets). Invalid invocations (generated junk / out-of-range / extreme values for every value-taking flag in front of a refused connection or an unknown game; unknown game, unresolvable host, closed port, zero / non-numeric / negative \
+         documented JSON->XML mapping gives, children compared as multisets). Invalid invocations (generated junk / out-of-range / extreme values for every value-taking flag in front of a refused connection or an unknown game; spellings of zero for the three timeout flags with UDP and TCP games; unknown game, unresolvable host, closed port, zero / non-numeric / negative \
          timeout flags, out-of-range port, unknown format, missing arguments) must exit non-zero with a message on stderr and no panic. non-trivial = a markup / control / non-ASCII \
          character reached the document, or an invalid invocation; distinct = digest of the case"
             .into()
@@ -291,7 +291,31 @@ impl Prop for C19 {
             args.push(if flag.starts_with("--") { format!("{flag}={value}") } else { format!("{flag}{value}") });
             Case::Invalid { args, what: format!("generated value for {flag}") }
         });
-        prop_oneof![6 => query, 1 => invalid].boxed()
+        // a timeout flag given some spelling of zero (or a look-alike), for a UDP and a TCP game: whether it is rejected by the parser or by the
+        // settings' own validation, the tool must end with an error status and a message, not a panic (a zero duration panics in socket setup)
+        let zero = (
+            prop::sample::select(vec!["--read-timeout", "--write-timeout", "--connect-timeout"]),
+            prop_oneof![
+                prop::sample::select(vec!["0", "00", "000", "+0", "+00", "-0", "0.0", "0e0", "0x0", " 0", "0 ", "0_0", "0000000000000000000000000", ".0", "0."]).prop_map(|s| s.to_string()),
+                "[+]?0{1,30}",
+            ],
+            prop::sample::select(vec!["teamfortress2", "q3a", "minecraftjava", "minecraftlegacy16", "savage2"]),
+        )
+            .prop_map(|(flag, value, game)| {
+                let tcp = game.starts_with("minecraft");
+                let port = if tcp { crate::realnet::closed_tcp_port(IpAddr::V4(Ipv4Addr::LOCALHOST)).unwrap_or(9) } else { 9 };
+                let mut args: Vec<String> = ["query", "-g", game, "-i", "127.0.0.1", "-p"].iter().map(|s| s.to_string()).collect();
+                args.push(port.to_string());
+                // the other timeouts are short, should the value be taken for something else
+                for f in ["--read-timeout", "--write-timeout", "--connect-timeout"] {
+                    if f != flag {
+                        args.push(format!("{f}=1"));
+                    }
+                }
+                args.push(format!("{flag}={value}"));
+                Case::Invalid { args, what: format!("zero spelling for {flag}") }
+            });
+        prop_oneof![12 => query, 2 => invalid, 1 => zero].boxed()
     }
 
     fn enumerated<'a>(&'a self, _tier: Tier, shard: usize, _nshards: usize) -> Box<dyn Iterator<Item = Case> + 'a> {
